@@ -34,6 +34,10 @@ func c20Alphabet(c Cfg) []Op {
 // doBackup runs Backup on the open source and verifies the copy. Returns a violation or nil.
 func doBackup(w *World, n int, res *TaskResult) *Violation {
 	dst := filepath.Join(w.Root, fmt.Sprintf("backup%d", n))
+	if c20ReuseDir {
+		dst = filepath.Join(w.Root, "backup-reused") // the periodic backup: always into the same directory
+		os.RemoveAll(dst + "-root")
+	}
 	before := w.DumpDB()
 	if before.Err != "" || !sameMap(before.KV, w.Model) {
 		return nil // C01's business
@@ -42,7 +46,7 @@ func doBackup(w *World, n int, res *TaskResult) *Violation {
 	if err != nil {
 		return viol("C20", "backup-error", "backup-error:"+firstWord(errClass(err)), "Backup returned "+panicDetail(err))
 	}
-	if _, err := os.Stat(filepath.Join(dst, ".lock")); err == nil {
+	if _, err := os.Stat(filepath.Join(dst, ".lock")); err == nil && !(c20ReuseDir && n > 1) { // (a reused destination holds the lock file of the copy's own earlier Open)
 		return viol("C20", "lock-copied", "lock-copied", "the backup directory contains the source's .lock file")
 	}
 	// the copy opens as an independent database while the source is still open
@@ -61,7 +65,9 @@ func doBackup(w *World, n int, res *TaskResult) *Violation {
 		return viol("C20", "copy-differs", "copy-differs", fmt.Sprintf("source at Backup time: %s\n backup opened:        %s", before, after))
 	}
 	// the copy is independent: a write to it does not show in the source
-	cp.guard(func() error { return cp.DB.Put([]byte("a"), []byte("copy-only")) })
+	if !c20ReuseDir { // (a destination that is backed up into again is only ever read)
+		cp.guard(func() error { return cp.DB.Put([]byte("a"), []byte("copy-only")) })
+	}
 	if err := cp.Close(); err != nil {
 		return viol("C20", "copy-close", "copy-close", "closing the backup: "+panicDetail(err))
 	}
@@ -70,6 +76,17 @@ func doBackup(w *World, n int, res *TaskResult) *Violation {
 		return viol("C20", "source-affected:"+c, "source-affected:"+c, "source after Backup: "+d)
 	}
 	return nil
+}
+
+// c20ReuseDir: every Backup of a sequence goes into the same destination directory
+var c20ReuseDir bool
+
+func runC20Reuse(cfg Cfg, keys []string, ops []Op, res *TaskResult) *Violation {
+	c20ReuseDir = true
+	defer func() { c20ReuseDir = false }()
+	// ... then a merge, the restart that adopts it (the source's file set shrinks) and one more backup
+	full := append(append([]Op{}, ops...), Op{K: "merge"}, Op{K: "restart"}, Op{K: "backup"})
+	return runC20(cfg, keys, full, res)
 }
 
 func runC20(cfg Cfg, keys []string, ops []Op, res *TaskResult) *Violation {
@@ -162,7 +179,11 @@ func init() {
 			if tier == "thorough" {
 				d, b = 5, 2
 			}
-			return append(seqTasks("C20", []seqLevel{{Name: fmt.Sprintf("d%db%d", d, b), Cfgs: c20Cfgs(tier), Keys: keysAB, Alpha: c20Alphabet, Depth: d, Dev: b, Run: runC20}}), c20RaceTasks(tier)...)
+			reuseAlpha := func(c Cfg) []Op {
+				return []Op{{K: "put", Key: "a", VC: "L"}, {K: "put", Key: "b", VC: "L"}, {K: "del", Key: "a"}, {K: "del", Key: "b"}, {K: "backup"}}
+			}
+			return append(seqTasks("C20", []seqLevel{{Name: fmt.Sprintf("d%db%d", d, b), Cfgs: c20Cfgs(tier), Keys: keysAB, Alpha: c20Alphabet, Depth: d, Dev: b, Run: runC20},
+				{Name: "reused-destination-d5", Cfgs: []Cfg{defaultCfg}, Keys: keysAB, Alpha: reuseAlpha, Depth: 5, Dev: 5, Run: runC20Reuse}}), c20RaceTasks(tier)...)
 		},
 		Bounds: func(tier string) map[string]any {
 			d, b := 4, 2
